@@ -6,63 +6,6 @@ import (
 	"time"
 )
 
-// ---- independent frame builder (reference encoder written from JT/T 808 section 4) ----
-
-type vFrame struct {
-	id      uint16
-	v2019   bool
-	encrypt bool
-	phone   []byte // 6 or 10 BCD bytes
-	serial  uint16
-	total   uint16 // 0 = not sub-packaged
-	number  uint16
-	body    []byte
-}
-
-func vEscape(p []byte) []byte {
-	out := []byte{0x7e}
-	for _, b := range p {
-		if b == 0x7e {
-			out = append(out, 0x7d, 0x02)
-		} else if b == 0x7d {
-			out = append(out, 0x7d, 0x01)
-		} else {
-			out = append(out, b)
-		}
-	}
-	return append(out, 0x7e)
-}
-
-func (f *vFrame) payload() []byte {
-	prop := uint16(len(f.body)) & 0x3ff
-	if f.v2019 {
-		prop |= 0x4000
-	}
-	if f.total > 0 {
-		prop |= 0x2000
-	}
-	if f.encrypt {
-		prop |= 0x0400
-	}
-	p := []byte{byte(f.id >> 8), byte(f.id), byte(prop >> 8), byte(prop)}
-	if f.v2019 {
-		p = append(p, 0x01)
-	}
-	p = append(p, f.phone...)
-	p = append(p, byte(f.serial>>8), byte(f.serial))
-	if f.total > 0 {
-		p = append(p, byte(f.total>>8), byte(f.total), byte(f.number>>8), byte(f.number))
-	}
-	p = append(p, f.body...)
-	var x byte
-	for _, b := range p {
-		x ^= b
-	}
-	return append(p, x)
-}
-
-func (f *vFrame) bytes() []byte { return vEscape(f.payload()) }
-
 // vGenFrame: a frame with symbolic serial and body; the header bytes other than the body are kept
 // free of escape bytes unless the harness says otherwise, and the phone keeps one rendering shape.
 func vGenFrame(label string, id uint16, v2019 bool, bodyLen int, bodySpecials int) *vFrame {
